@@ -10,11 +10,12 @@
 From stdpp Require Import gmap list.
 From Coq Require Import NArith ZArith.
 From VFS Require Import Core.Types Core.Prog Core.Calls Base.Store Layer.VfsPath Layer.Overlay Layer.Config
-  Proofs.CallsOk Proofs.AdapterOk Proofs.ConfigOk Proofs.Faults Proofs.IoStrict.
+  Proofs.CallsOk Proofs.AdapterOk Proofs.ConfigOk Proofs.Faults Proofs.IoStrict Proofs.OvlProofs.
+From VFS Require Import Base.MemFS.
 
-Theorem C20_fault_is_io_error : forall k inner c bases hs lg,
-  run bhandler (wrap_impl k inner c) (mkStore bases hs lg (Some (k, 0))) =
-  (mkStore bases hs ((k, c) :: lg) None, Err (mkErr EIo PUnfilled)).
+Theorem C20_fault_is_io_error : forall k inner c bases hs lg io,
+  run bhandler (wrap_impl k inner c) (mkStore bases hs lg (Some (k, 0)) io) =
+  (mkStore bases hs ((k, c) :: lg) None io, Err (mkErr EIo PUnfilled)).
 Proof. exact wrap_fault_fires. Qed.
 
 Theorem C20_question_mark_propagates : forall (S : Type) (h : handler brep S) T U
@@ -85,9 +86,37 @@ Theorem C20_walk_yields_the_failure : forall v fuel w, (forall c, strict (v_impl
   items_good (snd (run bhandler (walk_collect v fuel w []) st)).
 Proof. exact walk_fault. Qed.
 
+(** failing handle I/O (the harness arms [st_io]: reads, or writes and flushes, or both, on every handle answer
+    with an I/O error, as a failing disk or a closed pipe would): a strict program whose run reaches such an
+    operation returns an I/O error - copy_file, move_file, copy_dir, move_dir, read_to_string and the overlay's
+    copy-up cannot report success when the stream copy failed; and the failed operation left the store alone *)
+Theorem C20_failed_handle_io_is_reported : forall T (m : bprog (res T)), strict m ->
+  forall st, io_fault_hits m st -> ioe (snd (run bhandler m st)).
+Proof. exact @strict_io_fault. Qed.
+
+Theorem C20_failed_handle_io_changes_nothing : forall h o st,
+  io_fails st h o = true -> handle_op h o st = (st, fail EIo).
+Proof. exact handle_op_armed. Qed.
+
+Theorem C20_io_mode_survives : forall b st, st_io (fst (bhandler b st)) = st_io st.
+Proof. exact bhandler_io. Qed.
+
+Example C20_io_example :
+  let s1 := fst (mem_step (CCreateFile [[97%N]]) mem_new) in
+  let s1' := fst (msec_sem (MPublish [[97%N]] [104%N; 105%N]) s1) in
+  let st m := mkStore [BMem mem_new; BMem s1'] [] [] None m in
+  let cp := vp_copy_file v1 [[97%N]] v0 [[98%N]] in
+  io_fault_hits cp (st IoWrites) /\ ioe (snd (run bhandler cp (st IoWrites))) /\
+  io_fault_hits cp (st IoReads) /\ ioe (snd (run bhandler cp (st IoReads))) /\
+  snd (run bhandler cp (st IoOff)) = Ok tt.
+Proof.
+  cbn zeta. repeat split; try (vm_compute; reflexivity);
+    cbn; repeat first [left; reflexivity|right].
+Qed.
+
 Example C20_example :
   fst (run bhandler (wrap_impl 3 (fun c => Call (BFs 0 c) Ret) (CExists []))
-         (mkStore [] [] [] (Some (3, 0)))) = mkStore [] [] [(3, CExists [])] None.
+         (mkStore [] [] [] (Some (3, 0)) IoOff)) = mkStore [] [] [(3, CExists [])] None IoOff.
 Proof. reflexivity. Qed.
 
 Print Assumptions C20_fault_is_io_error.
@@ -101,3 +130,7 @@ Print Assumptions C20_stackings_strict.
 Print Assumptions C20_path_api_strict.
 Print Assumptions C20_fired_fault_is_reported.
 Print Assumptions C20_walk_yields_the_failure.
+Print Assumptions C20_failed_handle_io_is_reported.
+Print Assumptions C20_failed_handle_io_changes_nothing.
+Print Assumptions C20_io_mode_survives.
+Print Assumptions C20_io_example.
